@@ -32,7 +32,7 @@ LEVEL_NOTE = ('Trusted: the pthread driver (native/c28_driver.c), CPython embedd
               'verdict). Liveness by a 60 s deadline with all gates open.')
 ASSUMPTIONS = ['GIL build of CPython 3.12 embedded through libpython3.12.so', 'at most 2 libraries, 4 threads']
 BUDGET = {'quick': 120, 'thorough': 8000}
-TIME = {'quick': 40, 'thorough': 1500}
+TIME = {'quick': 40, 'thorough': 900}
 MIN_PER_SHARD = 30
 MAX_SHARDS = 8
 
